@@ -132,6 +132,9 @@ var sampleMu sync.Mutex
 // yet covered — role kinds, and per length/count prefix whether it announces 0, 1 or
 // several elements — shorter encodings first among equals. Taking simply the first n distinct
 // encodings left message fields with multi-entry maps and arrays out of the fault sweeps.
+// pickHist, when set, receives one line per wire feature of every value chosen by pickRich.
+var pickHist func(string)
+
 func pickRich(t *CType, evs []encVal, n int) []encVal {
 	if len(evs) <= n {
 		return evs
@@ -167,6 +170,13 @@ func pickRich(t *CType, evs []encVal, n int) []encVal {
 	take := func(i int) {
 		used[i] = true
 		out = append(out, evs[i])
+		if pickHist != nil {
+			for k := range feats[i] {
+				if strings.Contains(k, "=") && !strings.Contains(k, "@") {
+					pickHist("swept value announces " + k + " (" + t.Def.Kind + ")")
+				}
+			}
+		}
 		for k := range feats[i] {
 			covered[k] = true
 		}
